@@ -478,8 +478,6 @@ func (ipcp *IPCPStateMachine) receiveConfigureAck(pkt *LCPPacket) error {
 		return nil
 	}
 
-	ipcp.stopTimer()
-
 	switch ipcp.state {
 	case IPCPStateClosed, IPCPStateStopped:
 		ipcp.sendTerminateAck(pkt.Identifier)
@@ -490,6 +488,7 @@ func (ipcp *IPCPStateMachine) receiveConfigureAck(pkt *LCPPacket) error {
 		ipcp.sendConfigureRequest()
 		ipcp.setState(IPCPStateReqSent)
 	case IPCPStateAckSent:
+		ipcp.stopTimer()
 		ipcp.initializeRestartCount()
 		ipcp.setState(IPCPStateOpened)
 	case IPCPStateOpened:
@@ -505,8 +504,6 @@ func (ipcp *IPCPStateMachine) receiveConfigureNak(pkt *LCPPacket) error {
 	if pkt.Identifier != ipcp.lastIdentifier {
 		return nil
 	}
-
-	ipcp.stopTimer()
 
 	// Process NAK options
 	opts, err := ParseLCPOptions(pkt.Data)
@@ -547,8 +544,6 @@ func (ipcp *IPCPStateMachine) receiveConfigureReject(pkt *LCPPacket) error {
 		return nil
 	}
 
-	ipcp.stopTimer()
-
 	// Process rejected options - stop sending them
 	opts, _ := ParseLCPOptions(pkt.Data)
 	for _, opt := range opts {
@@ -576,18 +571,19 @@ func (ipcp *IPCPStateMachine) receiveConfigureReject(pkt *LCPPacket) error {
 
 // receiveTerminateRequest handles incoming Terminate-Request
 func (ipcp *IPCPStateMachine) receiveTerminateRequest(pkt *LCPPacket) error {
-	ipcp.stopTimer()
-
 	switch ipcp.state {
 	case IPCPStateClosed, IPCPStateStopped, IPCPStateClosing, IPCPStateStopping:
 		ipcp.sendTerminateAck(pkt.Identifier)
 	case IPCPStateReqSent, IPCPStateAckRcvd, IPCPStateAckSent:
+		ipcp.stopTimer()
 		ipcp.sendTerminateAck(pkt.Identifier)
 		ipcp.setState(IPCPStateStopped)
 	case IPCPStateOpened:
 		ipcp.zeroRestartCount()
 		ipcp.sendTerminateAck(pkt.Identifier)
 		ipcp.setState(IPCPStateStopping)
+		// Restart counter is zero: the next timeout finishes the layer (RFC 1661 zrc)
+		ipcp.startTimer()
 	}
 
 	return nil
@@ -595,12 +591,12 @@ func (ipcp *IPCPStateMachine) receiveTerminateRequest(pkt *LCPPacket) error {
 
 // receiveTerminateAck handles incoming Terminate-Ack
 func (ipcp *IPCPStateMachine) receiveTerminateAck(pkt *LCPPacket) error {
-	ipcp.stopTimer()
-
 	switch ipcp.state {
 	case IPCPStateClosing:
+		ipcp.stopTimer()
 		ipcp.setState(IPCPStateClosed)
 	case IPCPStateStopping:
+		ipcp.stopTimer()
 		ipcp.setState(IPCPStateStopped)
 	case IPCPStateAckRcvd:
 		ipcp.setState(IPCPStateReqSent)
@@ -712,8 +708,12 @@ func (ipcp *IPCPStateMachine) timeout() {
 		switch ipcp.state {
 		case IPCPStateClosing, IPCPStateStopping:
 			ipcp.sendTerminateRequest("Timeout")
-		case IPCPStateReqSent, IPCPStateAckRcvd, IPCPStateAckSent:
+		case IPCPStateReqSent, IPCPStateAckSent:
 			ipcp.sendConfigureRequest()
+		case IPCPStateAckRcvd:
+			// RFC 1661: TO+ in Ack-Rcvd is scr/Req-Sent - the peer's Ack was for the previous request
+			ipcp.sendConfigureRequest()
+			ipcp.setState(IPCPStateReqSent)
 		}
 	} else {
 		switch ipcp.state {
